@@ -454,6 +454,7 @@ type FuncContract struct {
 	PkgPath   string // package in whose scope type names resolve
 	Requires  []*Clause
 	Ensures   []*Clause
+	AssumesAcq []*Clause // environment assumptions about the guarded state, assumed right after each lock acquisition
 	Assumes   []*Clause // assumed at entry without being checked at call sites (closures: facts on captured variables)
 	Modifies  []CExpr
 	ModAll    bool
@@ -557,7 +558,7 @@ var clauseKeywords = map[string]bool{
 	"func": true, "loop": true, "type": true, "pred": true, "fn": true, "axiom": true, "lemma": true, "iface": true,
 	"ghostvar": true, "requires": true, "ensures": true, "invariant": true, "modifies": true, "pure": true,
 	"may_panic": true, "props": true, "ghost": true, "guarded_by": true, "immutable": true, "assume": true,
-	"at": true, "assert": true, "autouse": true, "fresh": true, "trusted": true, "inline": true, "rely": true, "params": true, "results": true, "package": true,
+	"at": true, "assert": true, "autouse": true, "assume_at_acquire": true, "fresh": true, "trusted": true, "inline": true, "rely": true, "params": true, "results": true, "package": true,
 }
 
 type rawClause struct {
@@ -767,6 +768,15 @@ func (c *Contracts) LoadFile(path, defaultPkg string, extern bool) error {
 				c.Types[key] = curT
 			}
 			curF = nil
+		case "assume_at_acquire":
+			if curF == nil {
+				return fmt.Errorf("%s:%d: %s outside func", path, r.line, r.kw)
+			}
+			cl, err := mkClause("assume", r)
+			if err != nil {
+				return err
+			}
+			curF.AssumesAcq = append(curF.AssumesAcq, cl)
 		case "requires", "ensures", "assume":
 			if curF == nil {
 				return fmt.Errorf("%s:%d: %s outside func", path, r.line, r.kw)
